@@ -299,3 +299,56 @@ Proof.
   destruct (Z.leb_spec 1 k); [now apply H2|].
   assert (k = 0) as K0 by (unfold clamp in Hk; lia). rewrite (H3 K0). reflexivity.
 Qed.
+
+(** * consecutive windows compose *)
+
+Lemma spec_bits_split s from w1 w2 : 0 <= from -> 0 <= w1 -> 0 <= w2 ->
+  spec_bits s from (w1 + w2) = spec_bits s from w1 ++ spec_bits s (from + w1) w2.
+Proof.
+  intros Hf H1 H2. apply (nth_ext _ _ false false).
+  - rewrite app_length, !spec_bits_length by lia. lia.
+  - intros n Hn. rewrite spec_bits_length in Hn by lia. rewrite spec_bits_nth by lia.
+    destruct (Nat.lt_ge_cases n (Z.to_nat w1)).
+    + rewrite app_nth1 by (rewrite spec_bits_length; lia). now rewrite spec_bits_nth by lia.
+    + rewrite app_nth2 by (rewrite spec_bits_length; lia). rewrite spec_bits_length by lia.
+      rewrite spec_bits_nth by lia. f_equal. lia.
+Qed.
+
+Lemma FromStr32_split s from w1 w2 :
+  bytes_ok s -> 0 <= from -> 0 <= w1 -> 0 <= w2 -> w1 + w2 <= 32 ->
+  from + w1 + w2 + 7 < 2 ^ 31 -> 8 * zlen s < 2 ^ 31 ->
+  exists k1 v1 k2 v2 k v,
+    FromStr32 s from (from + w1) = Some (k1, v1) /\
+    FromStr32 s (from + w1) (from + w1 + w2) = Some (k2, v2) /\
+    FromStr32 s from (from + (w1 + w2)) = Some (k, v) /\
+    k = k1 + k2 /\ v = v1 * 2 ^ w2 + v2 /\ (k1 < w1 -> k2 = 0).
+Proof.
+  intros Hs Hf H1 H2 H32 Hov Hlen.
+  exists (spec_k s from w1), (val_msb (spec_bits s from w1)),
+         (spec_k s (from + w1) w2), (val_msb (spec_bits s (from + w1) w2)),
+         (spec_k s from (w1 + w2)), (val_msb (spec_bits s from (w1 + w2))).
+  split; [apply FromStr32_spec; (assumption || lia)|].
+  split; [apply FromStr32_spec; (assumption || lia)|].
+  split; [apply FromStr32_spec; (assumption || lia)|].
+  split; [unfold spec_k, clamp; lia|].
+  split; [|unfold spec_k, clamp; lia].
+  rewrite spec_bits_split, val_msb_app, spec_bits_length by lia. rewrite Z2Nat.id by lia. reflexivity.
+Qed.
+
+Lemma FromStr32_split_checker s from w1 w2 :
+  bytes_ok s -> 0 <= from -> 0 <= w1 -> 0 <= w2 -> w1 + w2 <= 32 ->
+  from + w1 + w2 + 7 < 2 ^ 31 -> 8 * zlen s < 2 ^ 31 ->
+  split_ok w1 w2 (spec_FromStr32 s from w1) (spec_FromStr32 s (from + w1) w2)
+                 (spec_FromStr32 s from (w1 + w2)) = true.
+Proof.
+  intros Hs Hf H1 H2 H32 Hov Hlen.
+  destruct (FromStr32_split s from w1 w2 Hs Hf H1 H2 H32 Hov Hlen)
+    as (k1 & v1 & k2 & v2 & k & v & E1 & E2 & E & Hk & Hv & Hz).
+  rewrite FromStr32_spec in E1, E2, E by (assumption || lia).
+  assert (A1 : spec_FromStr32 s from w1 = (k1, v1)) by congruence.
+  assert (A2 : spec_FromStr32 s (from + w1) w2 = (k2, v2)) by congruence.
+  assert (A : spec_FromStr32 s from (w1 + w2) = (k, v)) by congruence.
+  rewrite A1, A2, A. clear E1 E2 E A1 A2 A.
+  unfold split_ok. cbn [fst snd]. rewrite !andb_true_iff. repeat split. 1-2: lia.
+  destruct (Z.ltb_spec k1 w1); [|reflexivity]. apply Z.eqb_eq. now apply Hz.
+Qed.
